@@ -312,7 +312,8 @@ def scenario_s():
 
 
 def schedule_s():
-    sparse = st.lists(st.tuples(st.integers(0, 250) | st.integers(0, 1200), st.integers(1, 3)), min_size=1, max_size=4).map(_sparse)
+    sparse = st.tuples(st.integers(0, 3), st.lists(st.tuples(st.integers(1, 250) | st.integers(1, 1200), st.integers(1, 3)), min_size=1, max_size=4)).map(
+        lambda t: _sparse(t[1] + [(0, t[0])]))      # decision 0 picks the actor that starts
     dense = st.lists(st.sampled_from([0, 0, 0, 0, 0, 0, 0, 1, 2]), min_size=10, max_size=600)
     return st.one_of(sparse, sparse, dense)
 
@@ -355,22 +356,26 @@ FIXED = [
 def job_systematic(scenario_i, shard, nshards):
     part = Partial()
     sc = FIXED[scenario_i]
-    base = run_schedule(dict(sc, schedule=[]))
-    part.record(dict(sc, schedule=[]), base, kind="schedule")
-    n_points = getattr(base, "points", 0)
     n_act = len(sc["actors"])
     i = 0
-    for p in range(n_points):
-        for k in range(1, n_act):
-            if i % nshards == shard:
-                case = dict(sc, schedule=[0] * p + [k])
-                out = run_schedule(case)
-                part.record({"scenario": scenario_i, "preempt_at": p, "to": k}, out, kind="systematic", hash_case=False, sample_cap=1)
-                for v in out.violations:
-                    v["case"] = case
-                    v["kind"] = "schedule"
-            i += 1
-    part.subcount("systematic-single-preemption:scenario%d" % scenario_i, points=n_points if shard == 0 else 0, schedules=i // nshards, exhaustive_single_preemption=True)
+    tot_points = 0
+    # decision 0 chooses the actor that starts; then exactly one preemption at point p >= 1 (every actor gets to be the preempted one)
+    for start in range(n_act):
+        base = run_schedule(dict(sc, schedule=[start]))
+        part.record(dict(sc, schedule=[start]), base, kind="schedule")
+        n_points = getattr(base, "points", 0)
+        tot_points += n_points
+        for p in range(1, n_points):
+            for k in range(1, n_act):
+                if i % nshards == shard:
+                    case = dict(sc, schedule=[start] + [0] * (p - 1) + [k])
+                    out = run_schedule(case)
+                    part.record({"scenario": scenario_i, "start": start, "preempt_at": p, "to": k}, out, kind="systematic", hash_case=False, sample_cap=1)
+                    for v in out.violations:
+                        v["case"] = case
+                        v["kind"] = "schedule"
+                i += 1
+    part.subcount("systematic-single-preemption:scenario%d" % scenario_i, points=tot_points if shard == 0 else 0, schedules=i // nshards, exhaustive_single_preemption=True)
     return part
 
 
